@@ -1,0 +1,11 @@
+//go:build !verif
+
+package server
+
+import "github.com/tidwall/resp"
+
+// verifCommand is a stub: verification-only commands do not exist in normal
+// builds.
+func (s *Server) verifCommand(msg *Message) (res resp.Value, err error, ok bool) {
+	return res, nil, false
+}
